@@ -111,9 +111,6 @@ func (p *Process) run() int {
 		p.setState(types.ProcessStateCompleted)
 		return 0
 	}
-	if p.isState(types.ProcessStateTerminating) {
-		return 0
-	}
 
 	if err := p.validateProcess(); err != nil {
 		log.Error().Err(err).Msgf(`Failed to run command ["%v"] for process %s`, strings.Join(p.getCommand(), `" "`), p.getName())
